@@ -85,6 +85,32 @@ def main(ctx: Ctx):
             if not os.path.exists(marker) or (o.get('has_error'), o.get('error')) != (True, 'wte') or r.get('term_ret') is not True:
                 ctx.fail(f'finally-not-run:{kind}', f'{prog}: terminate inside the target\'s try block: marker written={os.path.exists(marker)}, outcome {o}, terminate returned {r.get("term_ret")}',
                          {'prog': prog, 'scenario': 'marker', 'k': k})
+        # ---- a second terminate() while the target is unwinding: the request was delivered once, the clean-up of the target
+        #      (finally / with blocks) must run to its end. (Thread workers re-raise on every call by design: not included.)
+        import time
+        for prog, (mod, clsname, kind, persistent) in inject.KINDS.items():
+            if persistent or kind == 'thread':
+                continue
+            marker = os.path.join(sess.dir, f'marker2_{prog}')
+            cls = getattr(__import__(mod, fromlist=[clsname]), clsname)
+            kw = {'host': sess.addr(), 'main_path': ''} if kind == 'remote' else {}
+            sess.write_conf(None)
+            w = cls(TG.t_slow_finally, args=[marker, 1.0], **kw)
+            time.sleep(0.5)
+            st1, r1 = watchdog(lambda: w.terminate(0, force=False), 10)
+            time.sleep(0.25)
+            st2, r2 = watchdog(lambda: w.terminate(5, force=False), 15)
+            time.sleep(0.2)
+            done = os.path.exists(marker)
+            err = type(w.error).__name__ if st2 == 'ok' and not w.is_alive() else None
+            ctx.case(('second-terminate', prog), True, sample={'case': 'second terminate() while the target runs its finally block', 'prog': prog, 'first': (st1, r1), 'second': (st2, r2), 'cleanup_completed': done, 'error': err})
+            if st2 != 'ok' or r2 is not True or not done or err != 'WorkerTerminatedError':
+                ctx.fail(f'cleanup-cut-short:{kind}', f'{prog}: terminate(0) then terminate(5) 0.25 s later while the target was in a finally block that needs 1 s: second call {st2} {r2!r}, '
+                         f'clean-up completed={done}, error={err}', {'prog': prog, 'scenario': 'second-terminate'})
+            try:
+                w.terminate(0.5, force=True)
+            except Exception:
+                pass
     finally:
         sess.close()
 
